@@ -76,6 +76,7 @@ func (e *Exec) external(st *State, instr ssa.Instruction, name string, fn *ssa.F
 		return void()
 	case "(*sync.WaitGroup).Wait":
 		st.counts["blocking"]++
+		st.counts["wg.Wait"]++
 		st.events = append(st.events, "wg.Wait")
 		return void()
 	case "(*sync.Once).Do":
@@ -598,6 +599,7 @@ func (e *Exec) invoke(st *State, instr ssa.Instruction, cc *ssa.CallCommon, recv
 		return
 	case (m == "Send" || m == "SendMsg" || m == "CloseSend" || m == "SendHeader") && isCarrier(in):
 		st.counts["carrierSend"]++
+		st.counts["carrier."+m]++
 		st.counts["blocking"]++
 		st.events = append(st.events, "carrier."+m)
 		er := e.freshVal("senderr", errorType())
@@ -633,7 +635,7 @@ func (e *Exec) invoke(st *State, instr ssa.Instruction, cc *ssa.CallCommon, recv
 }
 
 func isCarrier(in string) bool {
-	return strings.Contains(in, "tunnelStream") || strings.Contains(in, "TunnelService_") || in == "grpc.ClientStream" || in == "grpc.ServerStream"
+	return strings.Contains(in, "tunnelStream") || strings.Contains(in, "TunnelService_") || strings.Contains(in, "BidiStreaming") || in == "grpc.ClientStream" || in == "grpc.ServerStream"
 }
 
 var _ = fmt.Sprintf
